@@ -635,6 +635,34 @@ impl Engine {
             }
         }
         s.push_str(&side);
+        // redundant lemmas for complex division: when u = (a c + b d)/(c^2+d^2) and v = (b c - a d)/(c^2+d^2)
+        // both occur, then (u + i v)(c + i d) = a + i b, i.e. u c - v d = a and u d + v c = b.
+        // (consequences of the two definitions and c^2+d^2 != 0; they keep the queries bilinear)
+        if self.cfg.purify_div {
+            let mul = |i: u32| -> Option<(u32, u32)> { if let Node::Mul(x, y) = &self.nodes[i as usize] { Some((*x, *y)) } else { None } };
+            for &i in &seen {
+                if let Node::Div(nr, den) = &self.nodes[i as usize] {
+                    let (m1, m2) = match &self.nodes[*den as usize] { Node::Add(x, y) => (*x, *y), _ => continue };
+                    let (c, d) = match (mul(m1), mul(m2)) { (Some((c1, c2)), Some((d1, d2))) if c1 == c2 && d1 == d2 => (c1, d1), _ => continue };
+                    let (p1, p2) = match &self.nodes[*nr as usize] { Node::Add(x, y) => (*x, *y), _ => continue };
+                    let (q1, q2) = match (mul(p1), mul(p2)) { (Some(a), Some(b)) => (a, b), _ => continue };
+                    for (cc, dd) in [(c, d), (d, c)] {
+                        for (x, y) in [(q1, q2), (q2, q1)] {
+                            // x = a*cc, y = b*dd
+                            let a = if x.0 == cc { x.1 } else if x.1 == cc { x.0 } else { continue };
+                            let b = if y.0 == dd { y.1 } else if y.1 == dd { y.0 } else { continue };
+                            // partner: (b*cc - a*dd)/den
+                            let mk_mul = |u: u32, v: u32| self.index.get(&Node::Mul(u.min(v), u.max(v))).copied();
+                            let (bc, ad) = match (mk_mul(b, cc), mk_mul(a, dd)) { (Some(p), Some(q)) => (p, q), _ => continue };
+                            let sub = match self.index.get(&Node::Sub(bc, ad)) { Some(t) => *t, None => continue };
+                            let v = match self.index.get(&Node::Div(sub, *den)) { Some(t) => *t, None => continue };
+                            if !seen.contains(&v) { continue; }
+                            s.push_str(&format!("(assert (= (- (* n{} {}) (* n{} {})) {}))\n(assert (= (+ (* n{} {}) (* n{} {})) {}))\n", i, nm(cc), v, nm(dd), nm(a), i, nm(dd), v, nm(cc), nm(b)));
+                        }
+                    }
+                }
+            }
+        }
         // axioms for the uninterpreted real power function, instantiated on the occurring applications
         // (all of them true statements about x^y on the reals)
         let pows: Vec<(u32, u32, u32)> = seen.iter().filter_map(|&i| if let Node::Fun2("pow", x, y) = &self.nodes[i as usize] { Some((i, *x, *y)) } else { None }).collect();
@@ -713,6 +741,7 @@ impl Engine {
             }
         }
         self.stats.solver_s += t0.elapsed().as_secs_f64();
+        if verdict == Verdict::Unknown { if let Ok(d) = std::env::var("VERIF_DUMP") { let _ = std::fs::write(format!("{}/unknown-{}-{}.smt2", d, std::process::id(), self.stats.q_unknown), &text); } }
         match verdict {
             Verdict::Sat => self.stats.q_sat += 1,
             Verdict::Unsat => self.stats.q_unsat += 1,
@@ -1521,6 +1550,7 @@ pub fn control(label: &str, b: B) {
             let pcv: Vec<&B> = pc.iter().collect();
             let (vp, _) = e.check(&pcv, false, to, false, None);
             if vp == Verdict::Unsat { e.stats.controls -= 1; e.stats.paths_pruned += 1; e.notes.push(format!("path {:?} entered on an undecided feasibility query is infeasible", e.trace)); }
+            else if vp == Verdict::Unknown { e.stats.controls -= 1; e.notes.push(format!("path {:?}: feasibility of the path condition itself is undecided (path kept, its obligations are still checked)", e.trace)); }
             else { e.control_failures.push(format!("{}: {:?}", label, vd)); }
         }
     })
@@ -1698,6 +1728,17 @@ pub fn run_concrete(mut cfg: Config, float: bool, binding: &BTreeMap<String, Str
     let e = g.take().unwrap();
     ConcreteReport { failures: e.concrete_failures, labels: e.path_oblig_labels, errors, notes: e.notes, undecided: e.undecided_labels }
 }
+
+/// The most recent decision of this path: (atom, value taken).
+pub fn last_decision() -> Option<(B, bool)> {
+    with(|e| {
+        let l = e.pc.last()?.clone();
+        Some(match l { B::Not(b) => (*b, false), b => (b, true) })
+    })
+}
+/// Structure of a term (children are node ids; use `Sym::from_id`).
+pub fn node_of(s: Sym) -> Node { with(|e| { let i = e.id(s); e.nodes[i as usize].clone() }) }
+impl Sym { pub fn from_id(i: u32) -> Sym { Sym { node: i, lit: 0.0 } } }
 
 /// Number of DAG nodes (for evidence).
 pub fn arena_size() -> usize { with(|e| e.nodes.len()) }
